@@ -426,7 +426,11 @@ fn gen_tagged_enum(rng: &mut Rng, cx: &mut Ctx) -> Value {
                 variants.push(json!({"type": "string", "enum": ["idle", "busy"]}));
             }
             for v in &vnames {
-                let payload = if rng.chance(1, 2) {
+                let payload = if cx.sw.tuples && !cx.targets.is_empty() && rng.chance(1, 4) {
+                    // a tuple variant with a named type in one slot
+                    let t = rng.pick(&cx.targets).clone();
+                    json!({"type": "array", "items": [r(&t), gen_scalar(rng, cx.sw)], "minItems": 2, "maxItems": 2})
+                } else if rng.chance(1, 2) {
                     gen_type(rng, cx, 1, false)
                 } else {
                     gen_object(rng, cx, 2, 1, 2)
@@ -540,6 +544,16 @@ fn gen_definition(rng: &mut Rng, cx: &mut Ctx) -> Value {
                 return json!({"type": "string", "enum": vals});
             }
             2 if cx.sw.tagged => return gen_tagged_enum(rng, cx),
+            3 if !cx.targets.is_empty() && cx.sw.nullable && rng.chance(1, 3) => {
+                // a definition that is nothing but a nullable wrapper of another
+                // definition (possibly of itself, possibly of another such wrapper)
+                let t = rng.pick(&cx.targets).clone();
+                return if rng.chance(1, 2) {
+                    json!({"anyOf": [r(&t), {"type": "null"}]})
+                } else {
+                    json!({"oneOf": [r(&t), {"type": "null"}]})
+                };
+            }
             3 if !cx.targets.is_empty() => {
                 // newtype alias
                 let t = rng.pick(&cx.targets).clone();
@@ -928,6 +942,10 @@ fn gen_component(rng: &mut Rng, sw: &Swarm, index: usize) -> Component {
     let snapshot: Defs = defs.clone();
     for (_name, d) in defs.iter_mut() {
         if let Some(Value::Array(alts)) = d.get_mut("anyOf") {
+            // (not the nullable wrapper `anyOf [ref, null]`: that is an Option, no enum)
+            if alts.len() == 2 && alts.iter().any(|a| a.get("type") == Some(&json!("null"))) {
+                continue;
+            }
             for alt in alts.iter_mut() {
                 if let Some(Value::String(r)) = alt.get("$ref") {
                     let target = r.strip_prefix("#/definitions/").and_then(|n| snapshot.get(n));
@@ -1135,7 +1153,7 @@ fn gen_settings(rng: &mut Rng, sw: &Swarm, comps: &[Component]) -> SettingsDesc 
         return s;
     }
     s.struct_builder = rng.chance(1, 2);
-    if rng.chance(1, 5) {
+    if rng.chance(1, 3) {
         s.type_mod = Some("types".into());
     }
     if rng.chance(1, 3) {
